@@ -171,14 +171,14 @@ func init() {
 		Floor: 50,
 		Bound: func(tier string) string {
 			k, e := coreK(tier)
-			return thoroughPrefix(tier) + fmt.Sprintf("k=%d focus units, %d skeletons (depth ≤3), %d elements per slice, all visit orders, both modes", k, len(coreSkeletons(tier)), e)
+			return fmt.Sprintf("k=%d focus units, %d skeletons (depth ≤3), %d elements per slice, all visit orders, both modes", k, len(coreSkeletons(tier)), e)
 		},
 		Assumptions: []string{
 			"reference model: PostTransforms run at node exit in declaration order only if the execution has no issue at that moment; first error stops the node's remaining PostTransforms and is reported at the node's path; a returned *ZogIssue is reported (wrapped by struct Parse, as is elsewhere)",
 			"Custom and Preprocess schemas are covered by the dedicated items custom/*, preprocess/*",
 		},
 		Items: func(tier string) []Item {
-			items := coreItems(tier, c12Scenario, func(a *Alpha) { a.WithPost = true; a.Lite = true }, []int{0, 1}, 0)
+			items := coreItems(tier, c12Scenario, func(a *Alpha) { a.WithPost = true; a.Lite = true }, []int{0, 1}, 2) // no k=3 triples: the PostTransform dimension already multiplies every unit by 6
 			items = append(items, c12ExtraItems()...)
 			return items
 		},
